@@ -126,6 +126,10 @@ class Type(object):
             return VAL
         if k == "list":
             return Seq(self.arg.sort())
+        if k == "map":
+            from .terms import Arr
+
+            return Arr(self.arg[0].sort(), self.arg[1].sort())
         raise ValueError("no sort for " + repr(self))
 
 
